@@ -111,6 +111,7 @@ static unsigned long nth_unit_in_buckets(unsigned long n, int nbuckets)
 int main(void)
 {
     char line[256];
+    setvbuf(stdout, NULL, _IOLBF, 1 << 16);
     while (fgets(line, sizeof line, stdin)) {
         unsigned long u, t;
         int n, k, rounds;
